@@ -3,7 +3,8 @@ import Driver.C01
 import Driver.Rx
 import ScrapliModel.Loss
 import ScrapliModel.Generated.C06Patterns
-namespace Driver
+namespace Driver.C06
+open Driver.C01
 open Scrapli Scrapli.Chan Scrapli.Loss
 
 /-! line-protocol handler for property C06 (arguments after the leading `c06` token)
@@ -211,4 +212,4 @@ def handleC06 : List String → String
     | _, _ => "bad-op"
   | _ => "bad-op"
 
-end Driver
+end Driver.C06
